@@ -32,9 +32,12 @@
 //
 // end-to-end tier (e2e.go): a real martian.Proxy serving the shaped listener over TCP, origin = RoundTripper
 //
-//	dial <id> [g]              TCP client connection, waits until the proxy accepted it (model op: conn <id>);
-//	                           g: the shared (global) bucket of every shape is a real bucket of capacity g draining every 200µs
-//	req <id> <u> <R> <len>     one exchange on the keep-alive connection; R = - | <k> (Range: bytes=k-, 206)
+//	dial <id> [g|-] [ms]       TCP client connection, waits until the proxy accepted it (model op: conn <id>);
+//	                           g: the shared (global) bucket of every shape is a real bucket of capacity g draining every 200µs;
+//	                           ms: the connection's own write buckets drain every ms milliseconds instead of every second
+//	                           (throttled bodies then get a wall-clock lower bound that costs tenths of a second)
+//	req <id> <u> <R> <len> [o] one exchange (o = c: client sends Connection: close, origin does not echo it; ce: origin echoes;
+//	                           h10 / h10e: the same with an HTTP/1.0 request) on the keep-alive connection; R = - | <k> (Range: bytes=k-, 206)
 //	                           | m<k> (multipart/byteranges 206) | x<k> (206 without usable Content-Range)
 //	                           (model op: resp <id> <u> <rs> <hl> <len>)
 //	hangup <id>                client closes; waits until the proxy closed its side (model op: close <id>)
@@ -126,6 +129,16 @@ func (h *hook) seen(addr string) (int, int) {
 const pfx = "trafficshape: "
 
 func (h *hook) add(s string) { h.mu.Lock(); h.evs = append(h.evs, s); h.mu.Unlock() }
+func (h *hook) has(prefix string) bool {
+	h.mu.Lock()
+	defer h.mu.Unlock()
+	for _, e := range h.evs {
+		if strings.HasPrefix(e, prefix) {
+			return true
+		}
+	}
+	return false
+}
 func (h *hook) take() []string {
 	h.mu.Lock()
 	defer h.mu.Unlock()
@@ -293,6 +306,7 @@ type oAct struct {
 type oShape struct {
 	closes, halts []*oAct
 	bounds        map[int64]bool // throttle interval end points
+	thr           [][3]int64     // throttle intervals: start, end (-1 = open), bandwidth
 }
 
 type resp struct {
@@ -324,6 +338,7 @@ type cstate struct {
 	br     *bufio.Reader
 	addr   string
 	nreq   int
+	tick   time.Duration // drain interval of the connection's own write buckets when the harness replaced them
 }
 
 type ex struct {
@@ -515,14 +530,21 @@ func (e *ex) do(op string) core.Result {
 		return e.doCfgStart(t[1:])
 	case t[0] == "cfgend" && len(t) == 1:
 		return e.doCfgEnd()
-	case t[0] == "dial" && (len(t) == 2 || len(t) == 3):
-		g := ""
-		if len(t) == 3 {
+	case t[0] == "dial" && len(t) >= 2 && len(t) <= 4:
+		g, tick := "", ""
+		if len(t) >= 3 && t[2] != "-" {
 			g = t[2]
 		}
-		return e.doDial(t[1], g)
-	case t[0] == "req" && len(t) == 5:
-		return e.doReq(t[1], t[2], t[3], t[4])
+		if len(t) == 4 {
+			tick = t[3]
+		}
+		return e.doDial(t[1], g, tick)
+	case t[0] == "req" && (len(t) == 5 || len(t) == 6):
+		opt := ""
+		if len(t) == 6 {
+			opt = t[5]
+		}
+		return e.doReq(t[1], t[2], t[3], t[4], opt)
 	case t[0] == "hangup" && len(t) == 2:
 		return e.doHangup(t[1])
 	case t[0] == "config" && len(t) >= 2:
@@ -887,6 +909,8 @@ func (e *ex) configured(code int, rb, body string, shapes []rawShape, def []int6
 				st, en, _ := wellFormedThrottle(t[0])
 				os.bounds[st] = true
 				os.bounds[en] = true
+				bw, _ := strconv.ParseInt(t[1], 10, 64)
+				os.thr = append(os.thr, [3]int64{st, en, bw})
 			}
 			e.cfg[s.regexID] = os
 		}
@@ -1317,6 +1341,32 @@ func (e *ex) wrote(id string, cs *cstate, data, delta []byte, n int, err error, 
 		core.Count("delay-measured")
 		if el < want {
 			return bad("c18:delay-too-short", "write took %v, configured delays sum to %v", el, want)
+		}
+	}
+	// throttles (measurement): B body bytes inside a throttle interval of bandwidth bw need at least
+	// ceil(B/bw) fills of the connection's own bucket; the first may be cut short by the drain phase and
+	// the last needs no wait, hence -2 intervals, and one more for tolerance
+	if cs.tick > 0 && r.gen == e.gen && st == "ok" {
+		var tw time.Duration
+		for _, t := range os.thr {
+			lo, hi := posBefore, r.pos
+			if t[0] > lo {
+				lo = t[0]
+			}
+			if t[1] >= 0 && t[1] < hi {
+				hi = t[1]
+			}
+			if t[2] > 0 && hi-lo >= 4*t[2] {
+				tw += time.Duration((hi-lo+t[2]-1)/t[2]-3) * cs.tick
+			}
+		}
+		if tw > 0 {
+			core.Count("throttle-measured")
+			core.Notes["throttle-measurement"] = fmt.Sprintf("%d body bytes took %v (lower bound used %v, bucket interval %v)", r.pos-posBefore, el, want+tw, cs.tick)
+			if el < want+tw {
+				return bad("c18:throttle-too-fast", "%d body bytes (offsets %d..%d) arrived in %v; the throttles of the shape allow them no sooner than %v (bucket interval %v)",
+					r.pos-posBefore, posBefore, r.pos, el, want+tw, cs.tick)
+			}
 		}
 	}
 	return res
